@@ -30,6 +30,7 @@ import (
 	"net/http"
 	"net/http/httptest"
 	"net/url"
+	"runtime/debug"
 	"sort"
 	"strconv"
 	"strings"
@@ -293,10 +294,10 @@ func (rig *c12Rig) serve(req *http.Request) (obs c12Obs) {
 }
 
 type c12ReqOpts struct {
-	name        *string   // nil: no x-test-case-name header
-	exp         *c12Side  // nil: no expectation headers
-	timeout     *string   // nil: no timeout header; header chosen by act.Protocol
-	trailers    string    // "", "eof" (appear when the body is exhausted, HTTP/2 style), "declared" (key announced, value at EOF, HTTP/1.1 style)
+	name        *string  // nil: no x-test-case-name header
+	exp         *c12Side // nil: no expectation headers
+	timeout     *string  // nil: no timeout header; header chosen by act.Protocol
+	trailers    string   // "", "eof" (appear when the body is exhausted, HTTP/2 style), "declared" (key announced, value at EOF, HTTP/1.1 style)
 	holder      **http.Request
 	bodyPayload []byte
 }
@@ -434,8 +435,17 @@ func (res *c12Result) fail(key, format string, a ...any) {
 	res.verdicts = append(res.verdicts, c12Verdict{key, fmt.Sprintf(format, a...)})
 }
 
-func c12Mentions(line, name, aspect string) bool {
-	rest := strings.ToLower(strings.TrimPrefix(line, name+": "))
+// c12Lower: the lines without the test-name prefix, lower-cased.
+func c12Lower(lines []string, name string) []string {
+	out := make([]string, len(lines))
+	for i, l := range lines {
+		out[i] = strings.ToLower(strings.TrimPrefix(l, name+": "))
+	}
+	return out
+}
+
+// c12Mentions: rest is a line as prepared by c12Lower.
+func c12Mentions(rest, aspect string) bool {
 	for _, w := range c12AspectWords[aspect] {
 		if strings.Contains(rest, w) {
 			return true
@@ -494,10 +504,11 @@ func c12RunMatrix(c c12Case, res *c12Result) {
 		}
 		return
 	}
+	low := c12Lower(obs.Lines, name)
 	for _, a := range dis {
 		found := false
-		for _, l := range obs.Lines {
-			if c12Mentions(l, name, a) {
+		for _, l := range low {
+			if c12Mentions(l, a) {
 				found = true
 				break
 			}
@@ -507,10 +518,10 @@ func c12RunMatrix(c c12Case, res *c12Result) {
 		}
 	}
 	// "exactly": every line must be attributable to an aspect that really deviates
-	for _, l := range obs.Lines {
+	for i, l := range obs.Lines {
 		ok := false
 		for _, a := range dis {
-			if c12Mentions(l, name, a) {
+			if c12Mentions(low[i], a) {
 				ok = true
 				break
 			}
@@ -518,7 +529,7 @@ func c12RunMatrix(c c12Case, res *c12Result) {
 		if !ok {
 			var which []string
 			for _, a := range c12Aspects {
-				if c12Mentions(l, name, a) {
+				if c12Mentions(low[i], a) {
 					which = append(which, a)
 				}
 			}
@@ -780,13 +791,13 @@ func c12TimeoutActual(protocol int) c12Actual {
 }
 
 type c12TimeoutObs struct {
-	Lines        []string `json:"lines"`
-	InnerCalls   int      `json:"inner_calls"`
-	CtxTimeout   *int64   `json:"ctx_timeout_ns"`
-	EchoMs       *int64   `json:"echo_ms"`
+	Lines         []string `json:"lines"`
+	InnerCalls    int      `json:"inner_calls"`
+	CtxTimeout    *int64   `json:"ctx_timeout_ns"`
+	EchoMs        *int64   `json:"echo_ms"`
 	HeaderAtInner []string `json:"header_at_inner"`
-	HasDeadline  bool     `json:"has_deadline"`
-	Panic        string   `json:"panic,omitempty"`
+	HasDeadline   bool     `json:"has_deadline"`
+	Panic         string   `json:"panic,omitempty"`
 }
 
 func c12RunTimeout(rig *c12Rig, c c12Case, res *c12Result) {
@@ -1022,15 +1033,19 @@ func TestVerifC12(t *testing.T) {
 		return
 	}
 
+	// millions of short-lived requests: trade a little memory for fewer collections
+	debug.SetGCPercent(800)
 	thorough := rep.Thorough()
 	deadline := rep.Deadline()
 	var k int64
 	stopped := false
+	var checks int64
 	budgetHit := func() bool {
 		if stopped {
 			return true
 		}
-		if !deadline.IsZero() && k%512 == 0 && time.Now().After(deadline) {
+		checks++ // counts this shard's own cases (k%512 would only ever be 0 in shard 0)
+		if !deadline.IsZero() && checks%256 == 0 && time.Now().After(deadline) {
 			stopped = true
 			r.NotExhaustive("budget reached after " + strconv.FormatInt(k, 10) + " enumerated cases")
 		}
@@ -1112,29 +1127,42 @@ func TestVerifC12(t *testing.T) {
 		c12RunTimeout(rig, c, &res)
 		record(c, res, 100003)
 	}
-	lenCompleted := -1
 	for _, p := range []int{c12Connect, c12GRPC, c12GRPCWeb} {
 		runTimeout(p, nil)
 	}
-	for l := 0; l <= maxLen && !stopped; l++ {
-		buf := make([]byte, l)
-		n := c12Pow(len(c12Alphabet), l)
-		for _, p := range []int{c12Connect, c12GRPC, c12GRPCWeb} {
-			for i := int64(0); i < n && !stopped; i++ {
-				if !r.Mine(k + 1) { // cheap skip without building the string
-					k++
-					continue
+	lenCompleted := -1
+	sweep := func(from, to int) {
+		for l := from; l <= to && !stopped; l++ {
+			buf := make([]byte, l)
+			n := c12Pow(len(c12Alphabet), l)
+			for _, p := range []int{c12Connect, c12GRPC, c12GRPCWeb} {
+				for i := int64(0); i < n && !stopped; i++ {
+					if !r.Mine(k + 1) { // cheap skip without building the string
+						k++
+						continue
+					}
+					s := c12NthString(c12Alphabet, l, i, buf)
+					runTimeout(p, &s)
 				}
-				s := c12NthString(c12Alphabet, l, i, buf)
-				runTimeout(p, &s)
+			}
+			if !stopped {
+				lenCompleted = l
 			}
 		}
-		if !stopped {
-			lenCompleted = l
-		}
 	}
-	r.Extra["timeout_len_completed"] = lenCompleted
+	sweep(0, 4)
+	// digit limits, overflow boundaries, long digit strings (before the longer sweeps, so that a
+	// budget stop costs the least interesting part)
+	boundaries := c12BoundaryNumbers()
 	for _, p := range []int{c12Connect, c12GRPC, c12GRPCWeb} {
+		for _, d := range boundaries {
+			for _, suf := range c12Suffixes {
+				for _, sign := range []string{"", "+", "-"} {
+					s := sign + d + suf
+					runTimeout(p, &s)
+				}
+			}
+		}
 		c12LongDigitStrings(thorough, func(d string) {
 			for _, suf := range c12Suffixes {
 				if !r.Mine(k + 1) {
@@ -1145,14 +1173,9 @@ func TestVerifC12(t *testing.T) {
 				runTimeout(p, &s)
 			}
 		})
-		for _, d := range c12BoundaryNumbers() {
-			for _, suf := range c12Suffixes {
-				for _, sign := range []string{"", "+", "-"} {
-					s := sign + d + suf
-					runTimeout(p, &s)
-				}
-			}
-		}
 	}
+	r.Extra["timeout_long_digit_strings_complete"] = !stopped
+	sweep(5, maxLen)
+	r.Extra["timeout_len_completed"] = lenCompleted
 	r.Extra["enumerated_total_all_shards"] = k
 }
